@@ -229,6 +229,46 @@ def rule_t5(ctx, pl: Pipeline) -> None:
     c06.rule_b7(ctx, reach, "C02-T6", reader_filter=lambda m: m.qualname in writers)
 
 
+CSV_TEXT_OPTIONS = {
+    "escapechar": "the backslash is the SMILES directional-bond symbol",
+    "comment": "'#' is the triple bond",
+    "converters": "cell text may be rewritten",
+    "thousands": "",
+    "decimal": "",
+    "skipinitialspace": "",
+    "lineterminator": "",
+    "quoting": "",
+    "doublequote": "",
+}
+
+
+def rule_t8(ctx) -> None:
+    """The command line front ends read the reaction column as it is written: no CSV option that consumes or rewrites
+    characters of a cell (SMILES uses `\\`, `#`, `/`, `.`, `@`, brackets)."""
+    ctx.rule("C02-T8", "CSV readers of the front ends pass no option that rewrites cell text", 2)
+    prog = ctx.prog
+    n = 0
+    for q, f in sorted(prog.functions.items()):
+        if not (q.startswith("synrbl.SynCmd.") or q.startswith("synrbl.SynUtils.batching.")):
+            continue
+        for c in calls(f):
+            name = unparse(c.func).split(".")[-1]
+            if name not in ("read_csv", "read_table", "reader", "DictReader"):
+                continue
+            if name in ("reader", "DictReader") and unparse(c.func).split(".")[0] != "csv":
+                continue
+            n += 1
+            bad = [k.arg for k in c.keywords if k.arg in CSV_TEXT_OPTIONS and not (isinstance(k.value, ast.Constant) and k.value.value in (None, False))]
+            if any(k.arg == "quotechar" and not (isinstance(k.value, ast.Constant) and k.value.value == '"') for k in c.keywords):
+                bad.append("quotechar")
+            if any(k.arg in ("sep", "delimiter") and isinstance(k.value, ast.Constant) and isinstance(k.value.value, str) and any(ch in k.value.value for ch in ".=#@/\\[]()+-:") for k in c.keywords):
+                bad.append("sep")
+            ctx.instance("C02-T8", "%s: %s" % (q.split("synrbl.", 1)[-1], unparse(c)[:60]), f.loc(c), ok=not bad)
+            if bad:
+                ctx.finding("C02-T8", "%s:csv-option:%s" % (q.split("synrbl.", 1)[-1], "+".join(sorted(bad))), f.loc(c), "the reaction column is read with %s: characters that belong to the SMILES are consumed by the parser (%s), so the molecules that reach the Balancer are not the given ones" % (", ".join(sorted(bad)), "; ".join(CSV_TEXT_OPTIONS.get(b, "") for b in bad if CSV_TEXT_OPTIONS.get(b))))
+    ctx.require(n >= 2, "fewer than 2 CSV read sites found in SynCmd / batching (%d)" % n)
+
+
 def check(ctx) -> None:
     pl = Pipeline(ctx)
     tf = TextFlow(ctx, ctx.pipeline_reachable())
@@ -237,3 +277,9 @@ def check(ctx) -> None:
     rule_t3(ctx, tf)
     rule_t4(ctx)
     rule_t5(ctx, pl)
+    # T7: a cached batch is served only for the identical rows and settings (shared with C12-K1): a key that
+    # identifies reactions up to normalisation hands one input the molecules of another
+    from . import c12
+
+    c12.rule_k1(ctx, "C02-T7")
+    rule_t8(ctx)
